@@ -219,10 +219,28 @@ def check_C04(ctx):
     ctx.model_must_hold(r, what='(block store discipline of mpz_add/mpz_sub)')
     r = ctx.tlc_model('MpzLogic', cfg_text=cfg(consts={'B': 4, 'V': 5 if q else 9, 'Variant': '"ok"'}), name='MpzLogic')
     ctx.model_must_hold(r, what='(block store discipline of mpz_and incl. temporaries)')
+    # the abstract machine itself, small scope: every history of init/clear/set/add/mul/neg/swap/realloc2 it admits keeps the heap invariants
+    rm = ctx.tlc_model('MC_Machine', cfg_text=cfg(spec='MSpec', consts={'NZ': 2, 'NQ': 1, 'NF': 1, 'NR': 1, 'MAXID': 4, 'DEPTH': 2 if q else 3, 'VALS': '{"1", "-2"}'},
+                       inv=('HeapIdsUnique', 'OwnersHoldLiveBlocks', 'NoLeakOutsideCalls', 'LiveWellFormed')), name='MC_Machine', heap='24g', timeout=3000)
+    ctx.model_must_hold(rm, what='(MPIR.tla admits a history that breaks a heap invariant)')
     b = ctx.build('default')
     paths = ctx.run_driver(b, 'hist', shards=16, timeout=1200)
     paths += ctx.run_driver(b, 'alias', shards=16, timeout=1200)
+    # rationals, floats, random states, strings and streams (valid and invalid input) under the same heap accounting
+    for d, shards in [('c12', 4), ('c13', 4), ('c19_hist', 4), ('c06_misc', 2), ('c06_mpz', 4), ('c17_stream', 8), ('c18_misc', 2)]:
+        paths += ctx.run_driver(b, d, shards=shards, timeout=900, tier='quick')
     ctx.validate(paths)
+    if not q:
+        # auxiliary observation channel for over-READS (invisible to the specification): the same replays on an AddressSanitizer build
+        from verif import sh
+        ba = ctx.build('asan')
+        reports = 0
+        for d in ('hist', 'alias', 'c17_stream', 'c06_mpz', 'c13'):
+            rc, out = sh([os.path.join(ba, 'verif-hx'), d, 'quick', str(ctx.seed), os.path.join(ctx.scratch, f'asan-{d}.ndjson'), '0/4'], timeout=1500,
+                         env={'ASAN_OPTIONS': 'detect_leaks=0:abort_on_error=0:halt_on_error=1'})
+            if 'ERROR: AddressSanitizer' in out:
+                reports += 1; rp = ctx.save_replay(f'asan-{d}.txt', out[-30000:]); ctx.violation('C04', f'AddressSanitizer report in driver {d}', rp)
+        ctx.notes.append(f'AddressSanitizer pass: {reports} reports')
     pp = ctx.run_driver(b, 'hist', shards=1, extra='pure,funs=mpz_add:mpz_sub:mpz_mul:mpz_tdiv_qr:mpz_and:mpz_ior:mpz_gcd:mpz_addmul:mpz_neg:mpz_mul_2exp:mpz_fdiv_q:mpz_swap:mpz_set', timeout=300)
     ctx.validate(pp, pure=True)
     return ctx.finish('model_checking',
